@@ -30,8 +30,35 @@ theorem findIf_spec (p : Nat → Bool) : ∀ (R A : V), (∀ x ∈ A, p x = fals
       rw [hpf, e1, e2]
       simpa using h3
 
-theorem removeLoop_spec (p : Nat → Bool) : ∀ (R A G : V), G ≠ [] →
-    ∃ J, removeLoop p (A ++ G ++ R) A.length (A.length + G.length) R.length
+/-- `p[dst] = move(p[src])` with `dst < src`, seen on a buffer split at both indices: the destination takes the
+    value, the source its moved-from state; nothing else changes -/
+theorem mvAsg_split (k : Kind) (A G' R : V) (g x : Nat) :
+    mvAsg k (A ++ g :: G' ++ x :: R) A.length (A.length + (G'.length + 1))
+      = .ok (A ++ x :: G' ++ mvd k x :: R) := by
+  have h1 : rd (A ++ g :: G' ++ x :: R) (A.length + (G'.length + 1)) = .ok x := by
+    have : A ++ g :: G' ++ x :: R = (A ++ g :: G') ++ x :: R := by simp
+    rw [this]; exact rd_append_mid' _ _ _ _ (by simp)
+  have h2 : wr (A ++ g :: G' ++ x :: R) A.length x = .ok (A ++ x :: G' ++ x :: R) := by
+    have e1 : A ++ g :: G' ++ x :: R = A ++ g :: (G' ++ x :: R) := by simp
+    have e2 : A ++ x :: G' ++ x :: R = A ++ x :: (G' ++ x :: R) := by simp
+    rw [e1, e2]; exact wr_append_mid _ _ _ _
+  have h3 : wr (A ++ x :: G' ++ x :: R) (A.length + (G'.length + 1)) (mvd k x)
+      = .ok (A ++ x :: G' ++ mvd k x :: R) := by
+    have e1 : A ++ x :: G' ++ x :: R = (A ++ x :: G') ++ x :: R := by simp
+    have e2 : A ++ x :: G' ++ mvd k x :: R = (A ++ x :: G') ++ mvd k x :: R := by simp
+    have e3 : A.length + (G'.length + 1) = (A ++ x :: G').length := by simp
+    rw [e1, e2, e3]; exact wr_append_mid _ _ _ _
+  unfold mvAsg
+  rw [h1]; simp only [ok_bind]
+  rw [if_neg (by omega), h2]; simp only [ok_bind]
+  exact h3
+
+/-- the compaction loop of `remove_if`, for every element kind: the write index stays strictly behind the read
+    index (`G ≠ []`), so every move assignment has `dst ≠ src` — no element is ever move-assigned to itself —
+    and the kept elements arrive unchanged; what is left behind (`J`: moved-from and removed elements) is
+    destroyed by `erase` -/
+theorem removeLoop_spec (k : Kind) (p : Nat → Bool) : ∀ (R A G : V), G ≠ [] →
+    ∃ J, removeLoop k p (A ++ G ++ R) A.length (A.length + G.length) R.length
         = .ok (A ++ R.filter (fun v => !p v) ++ J, A.length + (R.filter (fun v => !p v)).length)
       ∧ J.length + (R.filter (fun v => !p v)).length = G.length + R.length := by
   intro R
@@ -56,14 +83,10 @@ theorem removeLoop_spec (p : Nat → Bool) : ∀ (R A G : V), G ≠ [] →
       simp [hp] at hJl ⊢; omega
     · have hpf : p x = false := by simpa using hp
       simp only [hpf, Bool.not_false, if_true]
-      have h2 : wr (A ++ g :: G' ++ x :: R) A.length x = .ok (A ++ x :: G' ++ x :: R) := by
-        have e1 : A ++ g :: G' ++ x :: R = A ++ g :: (G' ++ x :: R) := by simp
-        have e2 : A ++ x :: G' ++ x :: R = A ++ x :: (G' ++ x :: R) := by simp
-        rw [e1, e2]; exact wr_append_mid _ _ _ _
-      rw [h2]; simp only [ok_bind]
-      obtain ⟨J, hJ, hJl⟩ := ih (A ++ [x]) (G' ++ [x]) (by simp)
-      have e1 : A ++ x :: G' ++ x :: R = (A ++ [x]) ++ (G' ++ [x]) ++ R := by simp
-      have e2 : A.length + (G'.length + 1) + 1 = (A ++ [x]).length + (G' ++ [x]).length := by simp; omega
+      rw [mvAsg_split]; simp only [ok_bind]
+      obtain ⟨J, hJ, hJl⟩ := ih (A ++ [x]) (G' ++ [mvd k x]) (by simp)
+      have e1 : A ++ x :: G' ++ mvd k x :: R = (A ++ [x]) ++ (G' ++ [mvd k x]) ++ R := by simp
+      have e2 : A.length + (G'.length + 1) + 1 = (A ++ [x]).length + (G' ++ [mvd k x]).length := by simp; omega
       have e3 : A.length + 1 = (A ++ [x]).length := by simp
       rw [e1, e2, e3, hJ]
       refine ⟨J, by simp [hpf]; omega, ?_⟩
@@ -74,8 +97,8 @@ theorem filter_not_of_all_false (p : Nat → Bool) (N : V) (h : ∀ x ∈ N, p x
   apply List.filter_eq_self.mpr
   intro x hx; simp [h x hx]
 
-theorem removeIf_spec (p : Nat → Bool) (l : V) :
-    ∃ J, removeIf p l = .ok (l.filter (fun v => !p v) ++ J, (l.filter (fun v => !p v)).length)
+theorem removeIf_spec (k : Kind) (p : Nat → Bool) (l : V) :
+    ∃ J, removeIf k p l = .ok (l.filter (fun v => !p v) ++ J, (l.filter (fun v => !p v)).length)
       ∧ (l.filter (fun v => !p v) ++ J).length = l.length := by
   obtain ⟨N, R', h1, h2, h3, h4⟩ := findIf_spec p l [] (by simp)
   simp only [List.nil_append, List.length_nil] at h1 h3
@@ -89,12 +112,12 @@ theorem removeIf_spec (p : Nat → Bool) (l : V) :
   · subst h1
     have hne : N.length ≠ (N ++ g :: R'').length := by simp
     rw [if_pos hne]
-    obtain ⟨J, hJ, hJl⟩ := removeLoop_spec p R'' N [g] (by simp)
+    obtain ⟨J, hJ, hJl⟩ := removeLoop_spec k p R'' N [g] (by simp)
     have e1 : N ++ g :: R'' = N ++ [g] ++ R'' := by simp
     have e2 : (N ++ g :: R'').length - N.length - 1 = R''.length := by simp
     have e3 : N.length + 1 = N.length + [g].length := by simp
     rw [e2, e3]
-    conv => enter [1, J, 1, 1, 2]; rw [e1]
+    conv => enter [1, J, 1, 1, 3]; rw [e1]
     rw [hJ]
     have hf : (N ++ [g] ++ R'').filter (fun v => !p v) = N ++ R''.filter (fun v => !p v) := by
       simp [List.filter_append, filter_not_of_all_false p N h2, hg]
@@ -113,9 +136,9 @@ theorem countP_add_filter_not (p : Nat → Bool) : ∀ l : V,
     · have hpf : p x = false := by simpa using hp
       simp [hpf]; omega
 
-theorem eraseIf_eq {cap : Nat} (d : V) (p : Nat → Bool) (hc : cap < 2 ^ 64) (hcap : d.length ≤ cap) :
-    eraseIf cap d p = .ok (d.filter (fun v => !p v), d.countP p) := by
-  obtain ⟨J, hJ, hJl⟩ := removeIf_spec p d
+theorem eraseIf_eq {cap : Nat} (k : Kind) (d : V) (p : Nat → Bool) (hc : cap < 2 ^ 64) (hcap : d.length ≤ cap) :
+    eraseIf cap k d p = .ok (d.filter (fun v => !p v), d.countP p) := by
+  obtain ⟨J, hJ, hJl⟩ := removeIf_spec k p d
   unfold eraseIf
   rw [hJ]; simp only [ok_bind]
   rw [eraseRange_eq _ _ _ hc (by rw [hJl]; exact hcap) (by simp) (Nat.le_refl _)]
@@ -128,6 +151,19 @@ theorem eraseIf_eq {cap : Nat} (d : V) (p : Nat → Bool) (hc : cap < 2 ^ 64) (h
   simp only [List.append_nil]
   congr 2
   omega
+
+/-- NOT tetl's algorithm: the textbook single loop `for (; first != last; ++first) if (!pred(*first))
+    *result++ = move(*first);` without the leading `find_if` (the seeded change C01-remove-if-self-move).  While
+    nothing has been removed yet `result = first`, so every kept leading element is move-assigned to itself.  Only
+    used in an example of Props.lean showing that the model (`mvAsg`, element kind `hd`) tells the two apart. -/
+def naiveRemove (k : Kind) (p : Nat → Bool) (l : V) (result first : Nat) : Nat → Except Err (V × Nat)
+  | 0 => .ok (l, result)
+  | n + 1 => do
+    let x ← rd l first
+    if !p x then do
+      let l1 ← mvAsg k l result first
+      naiveRemove k p l1 (result + 1) (first + 1) n
+    else naiveRemove k p l result (first + 1) n
 
 /-! ### inplace_vector -/
 
@@ -186,23 +222,21 @@ theorem uninitLoop_spec (src : V) : ∀ (n : Nat) (dst : V) (i : Nat), i + n = s
 theorem ipvCopyCtor_eq {cap : Nat} (k : Kind) (o : V) (h : o.length ≤ cap) :
     ipvCopyCtor cap k o = .ok o := by
   unfold ipvCopyCtor
-  cases k with
-  | triv => rfl
-  | nt =>
-    simp only
-    rw [uninitLoop_spec o o.length [] 0 (by simp)]
-    simp only [ok_bind, List.nil_append, List.drop_zero]
-    rw [if_neg (by omega)]
+  cases k <;> first
+    | rfl
+    | (simp only
+       rw [uninitLoop_spec o o.length [] 0 (by simp)]
+       simp only [ok_bind, List.nil_append, List.drop_zero]
+       rw [if_neg (by omega)])
 
 theorem ipvMoveCtor_eq {cap : Nat} (k : Kind) (o : V) (h : o.length ≤ cap) :
-    ipvMoveCtor cap k o = .ok (o, match k with | .triv => o | .nt => []) := by
+    ipvMoveCtor cap k o = .ok (o, match k with | .triv => o | _ => []) := by
   unfold ipvMoveCtor
-  cases k with
-  | triv => rfl
-  | nt =>
-    simp only
-    rw [uninitLoop_spec o o.length [] 0 (by simp)]
-    simp only [ok_bind, List.nil_append, List.drop_zero]
-    rw [if_neg (by omega)]
+  cases k <;> first
+    | rfl
+    | (simp only
+       rw [uninitLoop_spec o o.length [] 0 (by simp)]
+       simp only [ok_bind, List.nil_append, List.drop_zero]
+       rw [if_neg (by omega)])
 
 end Tetl.C01
